@@ -27,7 +27,7 @@ Proof. exact (url_end_unique ws r u rest u' rest'). Qed.
 Theorem C18_ambiguous_rejected
     (ws alpha alnum : N -> bool) (kw : list (text * mvalue)) (vparse : text -> option rawversion)
     (specpat specver : vop -> text -> option (vop * list N)) (pv pfv : N)
-    (url_oracle : bool -> text -> option text) (getenv : text -> option text) (project_root : text) (verbatim ext : bool)
+    (url_oracle : ukind -> text -> option text) (getenv : text -> option text) (project_root : text) (verbatim ext : bool)
     (c : cursor) (d : text) (g : option text) (c' : cursor) (l : option N) :
   parse_url ws url_oracle getenv project_root verbatim ext c = POk (d, g, c', l) ->
   exists u rest, c_rest (c_eat_whitespace ws c) = u ++ rest /\ u <> [] /\
@@ -38,7 +38,7 @@ Theorem C18_ambiguous_rejected
 Proof. exact (glued_url_rejected ws alpha alnum kw vparse specpat specver pv pfv url_oracle getenv project_root verbatim ext c d g c' l). Qed.
 
 (** 3. given() is the unexpanded source text; the URL is parsed from the expanded text *)
-Theorem C18_verbatim (url_oracle : bool -> text -> option text) (getenv : text -> option text) (project_root : text) (verbatim ext : bool)
+Theorem C18_verbatim (url_oracle : ukind -> text -> option text) (getenv : text -> option text) (project_root : text) (verbatim ext : bool)
     (u d : text) (g : option text) :
   verbatim = true -> parse_url_T url_oracle getenv project_root verbatim ext u = Some (d, g) ->
   g = Some u /\ dispatch_url url_oracle ext (expand getenv project_root u) = Some d.
